@@ -70,9 +70,16 @@ class Entity(ABC):
         self._partially_hidden = False
         self._public = True
 
-        map_attributes(self, **kwargs)
+        try:
+            map_attributes(self, **kwargs)
 
-        self.workspace.register(self)
+            self.workspace.register(self)
+        except Exception:
+            # a refused entity must not stay attached to its parent
+            children = getattr(self._parent, "_children", None)
+            if children is not None:
+                children[:] = [child for child in children if child is not self]
+            raise
 
     @property
     def allow_delete(self) -> bool:
